@@ -389,12 +389,21 @@ impl WmoGroupParser {
 }
 
 /// Read chunk data as bytes
-fn read_chunk_data<R: Read>(
+///
+/// `size` comes from a chunk header and is not trusted for the allocation: at most `size`
+/// bytes are read and the call fails if the input ends before that.
+pub(crate) fn read_chunk_data<R: Read>(
     reader: &mut R,
     size: u32,
 ) -> std::result::Result<Vec<u8>, Box<dyn std::error::Error>> {
-    let mut data = vec![0u8; size as usize];
-    reader.read_exact(&mut data)?;
+    let mut data = Vec::new();
+    reader
+        .by_ref()
+        .take(u64::from(size))
+        .read_to_end(&mut data)?;
+    if data.len() != size as usize {
+        return Err(Box::new(WmoError::UnexpectedEof));
+    }
     Ok(data)
 }
 
